@@ -51,6 +51,16 @@ Sp2(op, a, b) ==
     [] op = "^" /\ b \in {"zero", "nzero"} -> "fin"                      \* x^0 = 1 even for nan
     [] op = "^" /\ a = "one" -> "fin"                                    \* 1^y = 1 even for nan
     [] op = "^" /\ (a = "nan" \/ b = "nan") -> "nan"
+    \* IEEE 754 / C99 pow, which the Rust primitive powf follows: signed zeros and infinities as base, infinite exponents.
+    \* Among the special exponents only 1 and -1 are odd integers (2 and 1e300 are even, 0.5 and 1e-300 no integers).
+    [] op = "^" /\ a = "zero" -> IF b \in {"mone", "ninf"} THEN "pinf" ELSE "pzero"
+    [] op = "^" /\ a = "nzero" -> (CASE b = "one" -> "nzero" [] b = "mone" -> "ninf" [] b = "ninf" -> "pinf" [] OTHER -> "pzero")
+    [] op = "^" /\ a = "pinf" -> IF b \in {"mone", "ninf"} THEN "pzero" ELSE "pinf"
+    [] op = "^" /\ a = "ninf" -> (CASE b = "one" -> "ninf" [] b = "mone" -> "nzero" [] b = "ninf" -> "pzero" [] OTHER -> "pinf")
+    [] op = "^" /\ a = "mone" /\ IsInf(b) -> "fin"
+    [] op = "^" /\ a = "mone" /\ b \in {"half", "tiny"} -> "nan"
+    [] op = "^" /\ a \in {"two", "huge"} /\ IsInf(b) -> IF b = "pinf" THEN "pinf" ELSE "pzero"
+    [] op = "^" /\ a \in {"half", "tiny"} /\ IsInf(b) -> IF b = "pinf" THEN "pzero" ELSE "pinf"
     [] op = "atan2" /\ (a = "nan" \/ b = "nan") -> "nan"
     [] op = "atan2" -> "finz"
     [] OTHER -> "any"
@@ -62,6 +72,7 @@ ClassOk(want, r) ==
     [] want = "zeroish" -> r.c \in {"zero", "nzero"}
     [] want = "notnan" -> r.c \notin {"nan", "panic"}
     [] want = "zero" -> r.c \in {"zero", "nzero"}
+    [] want = "pzero" -> r.c = "zero"
     [] OTHER -> r.c = want
 
 Judge(r) ==
